@@ -391,14 +391,20 @@ func c13lock(c *Ctx) {
 		sink.SyncPlan = append(sink.SyncPlan, se)
 	}
 	locked := zapcore.Lock(sink)
-	if zapcore.Lock(locked) != locked {
-		c.Fail("C13: Lock(Lock(x)) wrapped a second time", "")
-		return
+	// (whether Lock(Lock(x)) and AddSync(x) hand back x itself is an
+	// optimisation, not part of the statement: what they return is judged by
+	// what it does - the tasks below drive the doubly locked syncer half of
+	// the time)
+	if c.G.Chance(2) {
+		locked = zapcore.Lock(locked)
 	}
-	// AddSync identities
-	if ws := zapcore.AddSync(sink); ws != zapcore.WriteSyncer(sink) {
-		c.Fail("C13: AddSync wrapped a writer that already has Sync", "")
-		return
+	{
+		own := &syncOnlyWriter{}
+		ws := zapcore.AddSync(zapcore.AddSync(own))
+		if err := ws.Sync(); err != nil || own.syncs != 1 {
+			c.Fail("C13: AddSync did not keep the existing Sync of a writer", "AddSync(AddSync(w)).Sync() returned %v after %d calls of the writer's own Sync", err, own.syncs)
+			return
+		}
 	}
 	so := &syncOnlyWriter{err: errors.New("sync error of the wrapped writer")}
 	sw := zapcore.AddSync(so)
